@@ -50,7 +50,7 @@ def is_nontrivial(ops):
 
 
 FNS = ["field_call", "srf_call", "krige_call", "condsrf_call", "transform", "set_condition",
-       "extdrift", "mesh_call", "krige_fit", "model_ctor",
+       "extdrift", "universal", "mesh_call", "krige_fit", "model_ctor",
        "vario_estimate", "vario_axis", "standard_bins", "fit_variogram", "normalizer",
        "mean_norm_trend", "array_transform", "model_funcs", "rejected_call", "tools_funcs"]
 TOOLS = ["exp_int", "inc_gamma", "inc_gamma_low", "inc_beta", "tplstable_cor", "tpl_exp_spec",
@@ -519,6 +519,34 @@ class Machine:
             cs = gs.CondSRF(kr, seed=3, mode_no=6)
             r2 = cs(pos, ext_drift=tdrift)
             self.track(r2, "returned:condsrf_extdrift", site, "result")
+
+    def _c_universal(self, op, rs, site):
+        """Universal kriging: polynomial / callable drift terms are evaluated at the caller's
+        conditioning and target positions."""
+        if self.cfg.get("geo"):
+            raise Inapplicable("cartesian example")
+        lay = op["layout"]
+        d = self.dim
+        n = 8 if d < 3 else 12
+        cpos = self.alloc("cond_pos", self._vals(rs, (d, n), -3, 3), lay, site)
+        cval = self.alloc("cond_val", self._vals(rs, (n,), 0.5, 3.0), lay, site)
+        drift = rs.choice(["linear", "quadratic", 2, 1, "fn"])
+        if drift == "fn":
+            drift = [cm.make_fn("lin", d), lambda *x: x[0] * x[-1]]
+        if drift in ("quadratic", 2) and d == 3:
+            drift = "linear"   # keep the system small
+        try:
+            kr = gs.krige.Universal(cm.build_model(self.cfg["model"]), cpos, cval, drift)
+            pos = self.alloc("pos", self._vals(rs, (d, op["n"]), -3, 3), lay, site)
+            res = kr(pos, chunk_size=rs.choice([None, 2]))
+            for r in res:
+                self.track(r, "returned:universal", site, "result")
+            if rs.random() < 0.5:
+                kr.set_condition()
+                r2 = kr(pos, return_var=False)
+                self.track(r2, "returned:universal", site, "result")
+        except (np.linalg.LinAlgError, ValueError):
+            self.ctx.probe("universal_refused")
 
     def _c_mesh_call(self, op, rs, site):
         """Generation on a meshio mesh (mesh.points is a caller array) with point volumes."""
